@@ -23,6 +23,8 @@ package main
 // and in-place) between requests.
 
 import (
+	"crypto/sha1"
+	"encoding/base64"
 	"fmt"
 	mrand "math/rand"
 	"net/http"
@@ -634,7 +636,7 @@ func c08Htpasswd(cw *c08World) {
 		// the Basic credential is evaluated at this very instance
 		ok, _ := in.Rules.allowed("", in.Rules.HtGroups)
 		for t, target := range c08Targets {
-			cw.probe(in, "htpasswd Basic credential", "basic", map[string]interface{}{"user": "bob", "groups": in.Rules.HtGroups}, nil, c01BasicAuth("bob", "pw1"), target, ok,
+			cw.probe(in, "htpasswd Basic credential", "basic", map[string]interface{}{"user": "bob", "groups": in.Rules.HtGroups}, nil, c08Basic("bob", "pw1"), target, ok,
 				fmt.Sprintf("%s|htpasswd|basic|%s|%s|none|want=%v", in.Rules.Name, target, in.Store, ok), fmt.Sprintf("c08h-%s-%s-%d", in.Rules.Name, in.Store, t))
 		}
 		// form login -> cookie session {User: bob, Groups: htpasswd groups}, later shown to every instance of that store
@@ -670,7 +672,14 @@ func c08Htpasswd(cw *c08World) {
 	}
 }
 
-func c01BasicAuth(user, pw string) string { return c01Basic(user, pw) }
+func c08Basic(user, pw string) string {
+	return "Basic " + base64.StdEncoding.EncodeToString([]byte(user+":"+pw))
+}
+
+func c08SHA(pw string) string {
+	s := sha1.Sum([]byte(pw))
+	return "{SHA}" + base64.StdEncoding.EncodeToString(s[:])
+}
 
 // logins: an identity failing the rules gets no session at all
 func c08Logins(cw *c08World, subjects []*c08Subject) {
@@ -876,7 +885,7 @@ func c08AuthOnly(cw *c08World) {
 	}
 	now := time.Now()
 	sessions = append(sessions,
-		&c08QSession{Label: "htpasswd", Email: "", Groups: []string{"hg", "a"}, auth: c01Basic("bob", "pw1")},
+		&c08QSession{Label: "htpasswd", Email: "", Groups: []string{"hg", "a"}, auth: c08Basic("bob", "pw1")},
 		&c08QSession{Label: "bearer", Email: "bearer@sub.example.com", Groups: []string{"b"}, auth: "Bearer " + vfMint(map[string]interface{}{"iss": cw.w.IdP.Issuer, "aud": "cid", "sub": "q-b",
 			"email": "bearer@sub.example.com", "groups": []string{"b"}, "preferred_username": "q", "exp": now.Add(6 * time.Hour).Unix(), "iat": now.Add(-time.Minute).Unix()}, vfMintOpts{})})
 
@@ -1094,7 +1103,7 @@ func TestVerif_C08(t *testing.T) {
 	w := vfNewWorld(t)
 	defer w.Close()
 	cw := &c08World{run: run, w: w, issuer: map[string]*vfProxy{}}
-	cw.ht = w.File("c08-htpasswd", "bob:"+c01SHA("pw1")+"\n")
+	cw.ht = w.File("c08-htpasswd", "bob:"+c08SHA("pw1")+"\n")
 	for _, key := range []string{"cookie/host", "redis/host", "cookie/domain", "redis/domain"} {
 		store, fam := strings.Split(key, "/")[0], strings.Split(key, "/")[1]
 		cw.issuer[key] = w.MustProxy(append([]string{"--session-store-type=" + store, "--redis-connection-url=" + w.RedisURL()}, c08FamFlags(fam)...)...)
